@@ -19,6 +19,9 @@
 //	value wins for a key set on both, as in Prometheus); annotation / for / keep_firing_for conditions are
 //	false for recording rules and for alerting rules without the field; durations compare with their operator.
 //
+// A check definition may be repeated verbatim in several rule blocks (pint de-duplicates checks by their
+// String()): it must then be returned exactly once iff at least one of the blocks carrying it applies.
+//
 // The rule data the reference works from is the generator's own model (not pint's parse of the file),
 // the path is the path handed to the finder.
 package c09
@@ -71,6 +74,9 @@ type FileCase struct {
 type BlockCase struct {
 	Sel    pintcfg.RuleSel `json:"sel"`
 	Marker string          `json:"marker"` // "name" | "for"
+	// MarkerID identifies the marker check definition; nil = the block's own index. Two blocks with the same
+	// (Marker, MarkerID) carry an IDENTICAL check definition (same String()), which pint de-duplicates.
+	MarkerID *int `json:"marker_id,omitempty"`
 }
 
 type Combo struct {
@@ -278,10 +284,17 @@ func markerString(i int, kind string) string {
 	return checks.NewRuleNameCheck(checks.MustTemplatedRegexp(fmt.Sprintf("blk%d-.*", i)), "", checks.Information).String()
 }
 
+func (b BlockCase) markerID(i int) int {
+	if b.MarkerID != nil {
+		return *b.MarkerID
+	}
+	return i
+}
+
 func renderBlock(i int, b BlockCase) *pintcfg.Block {
 	r := pintcfg.NewBlock("rule")
 	b.Sel.AddTo(r)
-	r.Add(markerBlock(i, b.Marker))
+	r.Add(markerBlock(b.markerID(i), b.Marker))
 	return r
 }
 
@@ -316,6 +329,8 @@ func allCombos() []Combo {
 
 type outcome struct {
 	selected, rejected int
+	shared             int // (rule, combo, check definition) evaluations where the definition is carried by >= 2 blocks
+	sharedLaterOnly    int // ... of which the first carrying block does not select the rule but a later one does
 	loadErr            string
 }
 
@@ -456,9 +471,16 @@ func run(c Case, m bugModel) (out outcome, err error) {
 		}
 	}
 
+	// distinct marker check definitions, each with the blocks that carry it
 	markers := make([]string, len(c.Blocks))
+	var markerOrder []string
+	carriers := map[string][]int{}
 	for i, b := range c.Blocks {
-		markers[i] = markerString(i, b.Marker)
+		markers[i] = markerString(b.markerID(i), b.Marker)
+		if _, ok := carriers[markers[i]]; !ok {
+			markerOrder = append(markerOrder, markers[i])
+		}
+		carriers[markers[i]] = append(carriers[markers[i]], i)
 	}
 	pg := config.NewPrometheusGenerator(res.Cfg, prometheus.NewRegistry())
 	cfg := res.Cfg
@@ -480,22 +502,48 @@ func run(c Case, m bugModel) (out outcome, err error) {
 				if m.isolate {
 					e.Group = isolatedGroup(e.Group)
 				}
-				got := map[string]bool{}
+				got := map[string]int{}
 				for _, ch := range cfg.GetChecksForEntry(ctx, pg, e) {
-					got[ch.String()] = true
+					got[ch.String()]++
 				}
-				for bi, b := range c.Blocks {
-					want := refApplied(b.Sel, it.rd, env{path: it.path, cmd: string(cmd), state: st, altBug: m.altBug})
-					if want {
-						out.selected++
-					} else {
-						out.rejected++
+				verb := map[bool]string{true: "applied", false: "not applied"}
+				for _, mk := range markerOrder {
+					blocks := carriers[mk]
+					// a check definition is applied iff at least one block carrying it applies
+					want := false
+					var wantBy []int
+					for _, bi := range blocks {
+						w := refApplied(c.Blocks[bi].Sel, it.rd, env{path: it.path, cmd: string(cmd), state: st, altBug: m.altBug})
+						if w {
+							want = true
+							wantBy = append(wantBy, bi)
+							out.selected++
+						} else {
+							out.rejected++
+						}
 					}
-					if got[markers[bi]] != want {
-						verb := map[bool]string{true: "applied", false: "not applied"}
-						return out, fmt.Errorf("rule block %d is %s to %s under command=%s state=%s, but the documented semantics say %s\nblock: %s\nrule: %+v\npath: %s",
-							bi, verb[got[markers[bi]]], it.where, cmd, docStateName[st], verb[want],
-							strings.TrimSpace(renderBlock(bi, b).String()), it.rd, it.path)
+					if len(blocks) > 1 {
+						out.shared++
+						if want && wantBy[0] != blocks[0] {
+							out.sharedLaterOnly++
+						}
+					}
+					n := got[mk]
+					if n > 1 {
+						return out, fmt.Errorf("the check %s is returned %d times for %s under command=%s state=%s (carried by rule blocks %v)",
+							mk, n, it.where, cmd, docStateName[st], blocks)
+					}
+					if (n == 1) != want {
+						var txt []string
+						for _, bi := range blocks {
+							txt = append(txt, fmt.Sprintf("block %d:\n%s", bi, strings.TrimSpace(renderBlock(bi, c.Blocks[bi]).String())))
+						}
+						if len(blocks) == 1 {
+							return out, fmt.Errorf("rule block %d is %s to %s under command=%s state=%s, but the documented semantics say %s\n%s\nrule: %+v\npath: %s",
+								blocks[0], verb[n == 1], it.where, cmd, docStateName[st], verb[want], txt[0], it.rd, it.path)
+						}
+						return out, fmt.Errorf("the check %s, defined identically in rule blocks %v, is %s to %s under command=%s state=%s, but the documented semantics say %s (blocks that select the rule: %v)\n%s\nrule: %+v\npath: %s",
+							mk, blocks, verb[n == 1], it.where, cmd, docStateName[st], verb[want], wantBy, strings.Join(txt, "\n"), it.rd, it.path)
 					}
 				}
 			}
@@ -677,7 +725,15 @@ func genCase(t *rapid.T, rec *vstat.Recorder, known map[string]string) Case {
 			kept = append(kept, ig)
 		}
 		sel.Ignore = kept
-		c.Blocks = append(c.Blocks, BlockCase{Sel: sel, Marker: rapid.SampledFrom([]string{"name", "for"}).Draw(t, fmt.Sprintf("b%d.marker", i))})
+		bc := BlockCase{Sel: sel, Marker: rapid.SampledFrom([]string{"name", "for"}).Draw(t, fmt.Sprintf("b%d.marker", i))}
+		// in about half of the multi-block cases a block repeats the check definition of an earlier
+		// block verbatim (same String()), with its own match / ignore conditions
+		if i > 0 && rapid.IntRange(0, 2).Draw(t, fmt.Sprintf("b%d.share", i)) == 0 {
+			j := rapid.IntRange(0, i-1).Draw(t, fmt.Sprintf("b%d.shareWith", i))
+			id := c.Blocks[j].markerID(j)
+			bc.Marker, bc.MarkerID = c.Blocks[j].Marker, &id
+		}
+		c.Blocks = append(c.Blocks, bc)
 	}
 	c.HCL = renderHCL(c.Blocks)
 	noOverride := excluded(classAliasing, known)
@@ -787,6 +843,11 @@ func TestPropSelect(t *testing.T) {
 		}
 		rec.Count("verdicts_selected", int64(out.selected))
 		rec.Count("verdicts_rejected", int64(out.rejected))
+		if out.shared > 0 {
+			rec.Count("cases_with_identical_check_in_several_blocks", 1)
+			rec.Count("verdicts_on_shared_check", int64(out.shared))
+			rec.Count("verdicts_on_shared_check_selected_only_by_a_later_block", int64(out.sharedLaterOnly))
+		}
 		if err != nil {
 			if kcs := knownClasses(c); len(kcs) > 0 {
 				listed := true
